@@ -649,3 +649,277 @@ def gen_C12(rng, tier):
                 data = rand_bytes(rng, (off + 8 * ln) // 8 + rng.choice([0, 1, 9, 17]))
                 lines.append('S %s data=%s :: rs %d ; rio %d ; pos ; rb 5 ; rio 3 ; pos' % (cfg, hexs(data), off, ln))
     return lines
+
+
+# ---------------------------------------------------------------------------------------------
+# C11 adapter under I/O faults
+# ---------------------------------------------------------------------------------------------
+
+def gen_C11(rng, tier):
+    quick = tier == 'quick'
+    lines = []
+    for W in WW:
+        B = W // 8
+        # every per-call byte limit, Interrupted / hard error / Ok(0) at each call index up to 3 words
+        limits = list(range(1, B + 1)) if (not quick or B <= 4) else sorted(set([1, 2, B // 2, B - 1, B]))
+        for lim in limits:
+            for nwords in (1, 2, 3):
+                words = [rand_bytes(rng, B, 'rand') for _ in range(nwords)]
+                ncalls = nwords * ((B + lim - 1) // lim) + 2
+                base = ['a%d' % lim] * ncalls
+                lines.append('AD write w=%d sched=%s :: %s' % (W, ','.join(base), ';'.join(hexs(w) for w in words)))
+                data = b''.join(words)
+                lines.append('AD read w=%d sched=%s data=%s :: %d' % (W, ','.join(base), hexs(data), nwords + 1))
+                idxs = range(ncalls) if (not quick or ncalls <= 8) else sorted(set([0, 1, ncalls // 2, ncalls - 1]))
+                for i in idxs:
+                    for fault in ('i', 'f', 'z'):
+                        sch = list(base)
+                        sch.insert(i, fault)
+                        lines.append('AD write w=%d sched=%s :: %s' % (W, ','.join(sch), ';'.join(hexs(w) for w in words)))
+                        lines.append('AD read w=%d sched=%s data=%s :: %d' % (W, ','.join(sch), hexs(data), nwords + 1))
+        # partial trailing word on read
+        for extra in range(0, B):
+            data = rand_bytes(rng, 2 * B + extra, 'rand')
+            lines.append('AD read w=%d sched=- data=%s :: 4' % (W, hexs(data)))
+            lines.append('AD read w=%d sched=a1,a1,a1 data=%s :: 4' % (W, hexs(data)))
+        # word positions and seeks over a Cursor
+        for _ in range(20 if quick else 300):
+            n = rng.randrange(0, 6)
+            data = rand_bytes(rng, n * B + rng.choice([0, 0, 1, B - 1]) % max(B, 1), 'rand')
+            ops = []
+            for _ in range(rng.randrange(1, 12)):
+                ops.append(rng.choice(['rw', 'wp', 'sp %d' % rng.randrange(0, n + 2)]))
+            ops.append('wp')
+            lines.append('AD seek w=%d data=%s :: %s' % (W, hexs(data), ' ; '.join(ops)))
+        # random schedules
+        for _ in range(40 if quick else 1500):
+            nwords = rng.randrange(1, 5)
+            words = [rand_bytes(rng, B, 'rand') for _ in range(nwords)]
+            sch = []
+            for _ in range(rng.randrange(0, 4 * nwords + 3)):
+                k = rng.random()
+                sch.append('a%d' % rng.randrange(1, B + 2) if k < 0.75 else 'i' if k < 0.9 else 'f' if k < 0.95 else 'z')
+            s = ','.join(sch) if sch else '-'
+            lines.append('AD write w=%d sched=%s :: %s' % (W, s, ';'.join(hexs(w) for w in words)))
+            lines.append('AD read w=%d sched=%s data=%s :: %d' % (W, s, hexs(b''.join(words)), nwords + 1))
+    return lines
+
+
+# ---------------------------------------------------------------------------------------------
+# C13 in-memory word streams
+# ---------------------------------------------------------------------------------------------
+
+def gen_C13(rng, tier):
+    quick = tier == 'quick'
+    lines = []
+    import itertools
+    kinds = ['rz', 'rs', 'rzb', 'rsb', 'ws', 'wv']
+    maxlen = 4 if quick else 5
+    for kind in kinds:
+        writer = kind in ('ws', 'wv')
+        alpha = ['r', 'pos', 'seek 0', 'seek 1', 'seek 2', 'seek 3', 'seek 4', 'seek 7']
+        if writer:
+            alpha += ['w 7', 'w x%x' % rng.getrandbits(8), 'len']
+        for size in range(0, 4):
+            for L in range(1, maxlen + 1):
+                seqs = itertools.product(alpha, repeat=L)
+                if len(alpha) ** L > (3000 if quick else 200000):
+                    seqs = [tuple(rng.choice(alpha) for _ in range(L)) for _ in range(3000 if quick else 60000)]
+                for seq in seqs:
+                    W = rng.choice(WW)
+                    init = ','.join(str(rng.getrandbits(W) if rng.random() < 0.7 else 0) for _ in range(size)) or '-'
+                    lines.append('MW kind=%s w=%d init=%s :: %s ; pos ; dump' % (kind, W, init, ' ; '.join(seq)))
+    # long random sequences
+    for _ in range(300 if quick else 8000):
+        kind = rng.choice(kinds)
+        writer = kind in ('ws', 'wv')
+        W = rng.choice(WW)
+        size = rng.randrange(0, 12)
+        init = ','.join(str(rng.getrandbits(W)) for _ in range(size)) or '-'
+        ops = []
+        for _ in range(rng.randrange(5, 60)):
+            k = rng.random()
+            if k < 0.4:
+                ops.append('r')
+            elif k < 0.6 and writer:
+                ops.append('w x%x' % rng.getrandbits(W))
+            elif k < 0.8:
+                ops.append('seek %d' % rng.randrange(0, size + 6))
+            elif k < 0.9:
+                ops.append('pos')
+            elif writer:
+                ops.append('len')
+        ops += ['pos', 'dump']
+        lines.append('MW kind=%s w=%d init=%s :: %s' % (kind, W, init, ' ; '.join(ops)))
+    return lines
+
+
+# ---------------------------------------------------------------------------------------------
+# C14 counting / tracing wrappers
+# ---------------------------------------------------------------------------------------------
+
+def gen_C14(rng, tier):
+    quick = tier == 'quick'
+    lines = []
+    n = 1500 if quick else 40000
+    rcfgs = reader_cfgs(quick)
+    for i in range(n):
+        cfg = rng.choice(rcfgs)
+        wrap = 'count' if rng.random() < 0.8 else 'dbg'
+        if wrap == 'dbg':
+            cfg = cfg.replace('strict=0', 'strict=1')
+        ww = rng.choice(WW)
+        cap = peek_cap(cfg)
+        items = []
+        for _ in range(rng.randrange(1, 12)):
+            k = rng.random()
+            if k < 0.2:
+                nb = rng.randrange(0, 65)
+                items.append(('raw', nb, rng.getrandbits(nb) if nb else 0))
+            elif k < 0.3:
+                items.append(('un', rng.randrange(0, 40)))
+            else:
+                code = rng.choice(ALL_CODES)
+                p = rng.choice(code_params(rng, code, True))
+                v = rand_value(rng, min(max_value(code, p), 1 << 40))
+                items.append((code, rng.choice(flags_for(code)), p, v))
+        w, r = [], []
+        for it in items:
+            if it[0] == 'raw':
+                w.append('wb x%x %d' % (it[2], it[1]))
+                r.append(rng.choice(['rb %d' % it[1], 'rs %d' % it[1]]))
+            elif it[0] == 'un':
+                w.append('wu %d' % it[1])
+                r.append('ru')
+            else:
+                code, fl, p, v = it
+                rfl = rng.choice(flags_for(code))
+                if uses_table_read(code, rfl) and cap < 16:
+                    rfl = {'gamma': '0', 'delta': '00', 'zeta3': '0'}[code]
+                w.append('wc %s %s %d %d' % (code, fl, p, v))
+                r.append('rc %s %s %d' % (code, rfl, p))
+            if rng.random() < 0.3:
+                w.append('stat')
+            if rng.random() < 0.3:
+                r.append('stat')
+            if rng.random() < 0.1:
+                w.append('wf')
+        tail = []
+        if wrap == 'count' and rng.random() < 0.5:
+            tail = ['reopen', rng.choice(['ct', 'cf', 'gc']) + ' %d' % rng.randrange(0, 100), 'stat', 'rp %d' % rng.randrange(1, cap + 1), 'rsp 1', 'stat']
+        ops = w + ['stat', 'wf', 'stat', 'wd', 'reopen'] + r + ['stat'] + (['pos'] if wrap == 'count' else []) + tail
+        lines.append('S %s ww=%d wrap=%s :: %s' % (cfg, ww, wrap, ' ; '.join(ops)))
+    return lines
+
+
+# ---------------------------------------------------------------------------------------------
+# C17 zig-zag
+# ---------------------------------------------------------------------------------------------
+
+def gen_C17(rng, tier):
+    quick = tier == 'quick'
+    lines = []
+    for u in range(256):
+        lines.append('Z 8 toint %d' % u)
+        lines.append('Z 8 tonat %d' % (u - 128))
+    step16 = 1 if not quick else 7
+    for u in range(0, 65536, step16):
+        lines.append('Z 16 toint %d' % u)
+        lines.append('Z 16 tonat %d' % (u - 32768))
+    for bits in (32, 64, 128):
+        lo, hi = -(1 << (bits - 1)), (1 << (bits - 1)) - 1
+        pts = set()
+        near = 64 if quick else 1 << 12
+        for d in range(near):
+            for b in (0, lo, hi):
+                for sgn in (1, -1):
+                    x = b + sgn * d
+                    if lo <= x <= hi:
+                        pts.add(x)
+        for i in range(bits):
+            for d in (-2, -1, 0, 1, 2):
+                for sgn in (1, -1):
+                    x = sgn * (1 << i) + d
+                    if lo <= x <= hi:
+                        pts.add(x)
+        for _ in range(200 if quick else 20000):
+            pts.add(rng.randrange(lo, hi + 1))
+        for x in sorted(pts):
+            lines.append('Z %d tonat %d' % (bits, x))
+            lines.append('Z %d toint %d' % (bits, x - lo))
+            if bits == 64:
+                lines.append('Z size tonat %d' % x)
+                lines.append('Z size toint %d' % (x - lo))
+    # 32-bit: exhaustive in-process sweep in the thorough tier, sampled blocks in quick
+    if quick:
+        for _ in range(16):
+            lines.append('Z sweep32 %d %d' % (rng.randrange(0, (1 << 32) - (1 << 20)), 1 << 20))
+        lines.append('Z sweep32 0 1048576')
+        lines.append('Z sweep32 %d 1048576' % ((1 << 32) - (1 << 20)))
+    else:
+        for s in range(0, 1 << 32, 1 << 26):
+            lines.append('Z sweep32 %d %d' % (s, 1 << 26))
+    return lines
+
+
+# ---------------------------------------------------------------------------------------------
+# C18 byte-level VByte
+# ---------------------------------------------------------------------------------------------
+
+def gen_C18(rng, tier):
+    quick = tier == 'quick'
+    lines = []
+    vals = set(range(0, 1 << 21, 1 if not quick else 257))
+    off = 0
+    for k in range(1, 11):
+        off += 1 << (7 * k)
+        for d in (-2, -1, 0, 1, 2):
+            if 0 <= off + d <= U64:
+                vals.add(off + d)
+    vals |= {U64, U64 - 1, 0, 127, 128}
+    for _ in range(300 if quick else 20000):
+        vals.add(rng.randrange(0, 1 << rng.randrange(1, 65)))
+    from pycodes import vbyte_bytes
+    for v in sorted(vals):
+        lines.append('VB wbe %d' % v)
+        lines.append('VB wle %d' % v)
+        lines.append('VB len %d' % v)
+        if rng.random() < (0.2 if quick else 1.0):
+            lines.append('VB wgen be %d' % v)
+            lines.append('VB wgen le %d' % v)
+            for big, e in ((True, 'be'), (False, 'le')):
+                b = bytes(vbyte_bytes(big, v))
+                tail = rand_bytes(rng, rng.randrange(0, 3), 'rand')
+                lines.append('VB r%s %s' % (e, hexs(b + tail)))
+                lines.append('VB rgen %s %s' % (e, hexs(b)))
+                if len(b) > 1:
+                    lines.append('VB r%s %s' % (e, hexs(b[:-1])))        # truncated inside the codeword
+            # the bit-stream traits write the same bytes at aligned positions
+            E = rng.choice(ES)
+            lines.append('S e=%s ww=%d :: wc vbbe - 0 %d ; wc vble - 0 %d ; wf ; wd' % (E, rng.choice(WW), v, v))
+    # completeness: every terminated string of length <= 3 (thorough; sampled in quick)
+    def strings(L):
+        import itertools
+        for body in itertools.product(range(128, 256), repeat=L - 1):
+            for last in range(128):
+                yield bytes(body) + bytes([last])
+    for L in (1, 2, 3):
+        allS = strings(L)
+        if L == 3 or (quick and L == 2):
+            cnt = 2000 if quick else 2 ** 21
+            if not quick:
+                for s in allS:
+                    lines.append('VB rt %s %s' % (rng.choice(['be', 'le']), hexs(s)))
+            else:
+                for _ in range(cnt):
+                    s = bytes([rng.randrange(128, 256) for _ in range(L - 1)] + [rng.randrange(128)])
+                    lines.append('VB rt %s %s' % (rng.choice(['be', 'le']), hexs(s)))
+        else:
+            for s in allS:
+                lines.append('VB rt be %s' % hexs(s))
+                lines.append('VB rt le %s' % hexs(s))
+    for _ in range(300 if quick else 20000):
+        L = rng.randrange(4, 10)
+        s = bytes([rng.randrange(128, 256) for _ in range(L - 1)] + [rng.randrange(128)])
+        lines.append('VB rt %s %s' % (rng.choice(['be', 'le']), hexs(s)))
+    return lines
